@@ -605,8 +605,24 @@ func (e *Engine) elemAt2(fn string, t types.Type, i, j *Term) Value {
 	if isStringLike(t) {
 		return App(fn, SStr, i, j)
 	}
-	if b, ok := t.Underlying().(*types.Basic); ok && b.Info()&types.IsBoolean != 0 {
-		return App(fn, SBool, i, j)
+	switch u := t.Underlying().(type) {
+	case *types.Basic:
+		if u.Info()&types.IsBoolean != 0 {
+			return App(fn, SBool, i, j)
+		}
+	case *types.Struct:
+		// elements of an inner slice that are structs of scalars / interfaces (e.g. []KeyValue[CSSClass, bool])
+		sv := &StructV{F: map[string]Value{}}
+		for k := 0; k < u.NumFields(); k++ {
+			f := u.Field(k)
+			sv.Names = append(sv.Names, f.Name())
+			sv.F[f.Name()] = e.elemAt2(fn+"."+f.Name(), f.Type(), i, j)
+		}
+		return sv
+	case *types.Interface:
+		if !isErrorType(t) {
+			return &IfaceV{Tag: App(fn+".tag", SInt, i, j), Id: App(fn+".id", SInt, i, j), Payloads: map[string]Value{}}
+		}
 	}
 	return App(fn, SInt, i, j)
 }
